@@ -580,7 +580,13 @@ Example fteik3d_gradient_sign_run_R :
        get 0 G [i; j; k; 2%Z] = normed3 rz rx ry ry) /\
       (let s := get 0%Z sg [i; j; k; 0%Z] in let c := get 0 G [i; j; k; 0%Z] in
        s <> 0%Z -> (0 <= c * IZR s <-> get 0 t [(i - s)%Z; j; k] <= get 0 t [i; j; k]) /\
-                   (c * IZR s < 0 <-> get 0 t [i; j; k] < get 0 t [(i - s)%Z; j; k])).
+                   (c * IZR s < 0 <-> get 0 t [i; j; k] < get 0 t [(i - s)%Z; j; k])) /\
+      (let s := get 0%Z sg [i; j; k; 1%Z] in let c := get 0 G [i; j; k; 1%Z] in
+       s <> 0%Z -> (0 <= c * IZR s <-> get 0 t [i; (j - s)%Z; k] <= get 0 t [i; j; k]) /\
+                   (c * IZR s < 0 <-> get 0 t [i; j; k] < get 0 t [i; (j - s)%Z; k])) /\
+      (let s := get 0%Z sg [i; j; k; 2%Z] in let c := get 0 G [i; j; k; 2%Z] in
+       s <> 0%Z -> (0 <= c * IZR s <-> get 0 t [i; j; (k - s)%Z] <= get 0 t [i; j; k]) /\
+                   (c * IZR s < 0 <-> get 0 t [i; j; k] < get 0 t [i; j; (k - s)%Z])).
 Proof.
   intros slow.
   destruct (proj2 (fteik3d_raises_iff slow 1 1 1 (1 / 2) (3 / 4) (1 / 4) 2 true)) as [[[t G] v] E].
@@ -588,7 +594,7 @@ Proof.
     repeat (apply andb_true_intro; split); apply Rleb_true; lra.
   - exists t, G, v. split; [exact E|]. intros sg G0 i j k Hi Hj Hk. split.
     + exact (proj2 (fteik3d_gradient_assembly _ _ _ _ _ _ _ _ _ _ _ E) i j k Hi Hj Hk).
-    + exact (proj1 (fteik3d_gradient_sign_iff _ _ _ _ _ _ _ _ _ _ _ Rlt_0_1 Rlt_0_1 Rlt_0_1 E i j k Hi Hj Hk)).
+    + exact (fteik3d_gradient_sign_iff _ _ _ _ _ _ _ _ _ _ _ Rlt_0_1 Rlt_0_1 Rlt_0_1 E i j k Hi Hj Hk).
 Qed.
 
 (* 2. over R, assembly level: 2 x 1 x 2 nodes holding 0, 1 / 2, 5; node (1,0,0) has recorded directions (1, 0, -1).  The z
